@@ -269,6 +269,12 @@ TARGETED = {
     "elif_literal": "def f():\n    if t(1):\n        c(2)\n    elif 0:\n        c(3)\n    else:\n        c(4)\n    return c(5)\n",
     "literal_in_andor": "def f():\n    if t(1) and 1:\n        return c(2)\n    if 0 or t(3):\n        return c(4)\n    return c(5)\n",
     "ifexp_value": "def f():\n    y = c(1) if t(2) else c(3)\n    return c(4, y)\n",
+    "or_chain4_test": "def f():\n    if v(1) or v(2) or v(3) or v(4):\n        return c(5)\n    return c(6)\n",
+    "and_chain4_test": "def f():\n    if v(1) and v(2) and v(3) and v(4):\n        return c(5)\n    return c(6)\n",
+    "or_chain5_value": "def f():\n    y = v(1) or v(2) or v(3) or v(4) or v(5)\n    return c(6, y)\n",
+    "and_chain5_return": "def f():\n    return v(1) and v(2) and v(3) and v(4) and v(5)\n",
+    "or_chain4_while": "def f():\n    while v(1) or v(2) or v(3) or v(4):\n        c(5)\n        if t(6):\n            break\n    return c(7)\n",
+    "and_chain4_callarg": "def f():\n    return c(9, v(1) and v(2) and v(3) and v(4))\n",
     "return_in_loop_else": "def f():\n    for x in it(1):\n        c(2)\n    else:\n        return c(3)\n    return c(4)\n",
     "continue_in_while_else_if": "def f():\n    while t(1):\n        if t(2):\n            continue\n        elif t(3):\n            break\n        c(4)\n    else:\n        c(5)\n    return c(6)\n",
 }
